@@ -91,6 +91,9 @@ class Operation(ElementBase):
         surface or an intersection of multiple surface. WIP according to
         https://github.com/OpenFOAM/OpenFOAM-10/blob/master/src/meshTools/searchableSurfaces/searchableSurfacesQueries/searchableSurfacesQueries.H
         """
+        if not (0 <= corner <= 7):
+            raise ValueError(f"Corner index must be between 0 and 7, got {corner}")
+
         # bottom and top faces define operation's points
         if corner > 3:
             self.top_face.points[corner - 4].project(label)
